@@ -22,7 +22,11 @@ TRUSTED_BASE = [
     "SQLite joins/views, brentq, numpy mean: values compared with exact rationals within 1e-9 relative",
     "the Python harness: generators, table dump, the oracle c13Holds (independent Fraction recomputation of every "
     "crossing value from the interval's own rows)",
+    "translator tools/gen_schema.py: spowtd/schema.sql as parsed by SQLite itself (PRAGMA table_info / index_list / "
+    "foreign_key_list; CHECK clauses and view bodies cut from the stored CREATE text) -> lean/SchemaTie/Generated.lean; "
+    "the declarations the proofs assume are re-checked by `rfl` on every run (SchemaTie/Curves.lean)",
 ]
+SCHEMA_TIE = ('Curves',)
 ASSUMPTIONS = [
     "grid coverage is decided in floating point by the tool (floor(min/step), ceil(max/step)); the oracle skips levels "
     "whose k*step lies within 1e-9 of min or max",
